@@ -211,6 +211,8 @@ class Ctx:
                     except Exception:
                         res.append({'garbled': l[:200]})
                 i += len(lines)
+                if i < hi and res and isinstance(res[-1], dict) and 'timeout' in res[-1] and lines:
+                    continue      # `dv guard` answered {"timeout": ms} for request i-1 and exited on purpose: restart on request i
                 if i < hi:
                     # the process died on request i
                     res.append({'crash': 'exit status %s: %s' % (p.returncode, p.stderr.strip()[-200:])})
